@@ -18,7 +18,7 @@ CFG_1D = dict(
     ops1=("pos", "mul2", "adv"),
     set_idx=("all", "s1", "i0", "advr3", "bool", "advrT"),
     iops=("iadd", "imul", "ipow2"),
-    outs=(("add", None), ("multiply", 0), ("multiply", "F")),
+    outs=(("add", None), ("multiply", 0), ("multiply", "F"), ("positive", "t0"), ("multiply", "t1")),  # 't0'/'t1': the mask is handed over as a tensor
     outs_const=True,
     max_live=6,
     set_all_tensor=True,
